@@ -44,7 +44,7 @@ func undrainedExits(loop *ast.RangeStmt, loopLabel string, ids string) int {
 	var walkStmt func(s ast.Stmt, prev ast.Stmt, breakTargetsLoop bool)
 	drained := func(prev ast.Stmt) bool {
 		if es, ok := prev.(*ast.ExprStmt); ok {
-			return isCallTo(es.X, "drainWalker", ids)
+			return isCallTo(es.X, "drainWalker", ids) || callsDrainClosure(es.X)
 		}
 		return false
 	}
@@ -58,7 +58,13 @@ func undrainedExits(loop *ast.RangeStmt, loopLabel string, ids string) int {
 	walkStmt = func(s ast.Stmt, prev ast.Stmt, bt bool) {
 		switch x := s.(type) {
 		case *ast.ReturnStmt:
-			if prev == nil || !drained(prev) {
+			viaClosure := false // return abandon(err): a local closure that drains first
+			for _, r := range x.Results {
+				if callsDrainClosure(r) {
+					viaClosure = true
+				}
+			}
+			if !viaClosure && (prev == nil || !drained(prev)) {
 				n++
 			}
 		case *ast.BranchStmt:
@@ -116,6 +122,27 @@ func undrainedExits(loop *ast.RangeStmt, loopLabel string, ids string) int {
 
 var innerLabels map[string]bool
 
+// drainClosures: local closures `name := func(...) ... { drainWalker(ids); ... }` of the walk being analysed
+var drainClosures map[string]bool
+
+func callsDrainClosure(e ast.Expr) bool {
+	call, ok := e.(*ast.CallExpr)
+	if !ok {
+		return false
+	}
+	id, ok := call.Fun.(*ast.Ident)
+	return ok && drainClosures[id.Name]
+}
+
+// startsWithDrain: the first statement of the literal's body is drainWalker(ids)
+func startsWithDrain(fl *ast.FuncLit, ids string) bool {
+	if len(fl.Body.List) == 0 {
+		return false
+	}
+	es, ok := fl.Body.List[0].(*ast.ExprStmt)
+	return ok && isCallTo(es.X, "drainWalker", ids)
+}
+
 func collectLabels(n ast.Node) map[string]bool {
 	m := map[string]bool{}
 	ast.Inspect(n, func(nd ast.Node) bool {
@@ -125,6 +152,140 @@ func collectLabels(n ast.Node) map[string]bool {
 		return true
 	})
 	return m
+}
+
+// localClosures: name -> literal for every `name := func(...) {...}` of a unit
+func localClosures(body *ast.BlockStmt) map[string]*ast.FuncLit {
+	m := map[string]*ast.FuncLit{}
+	ast.Inspect(body, func(nd ast.Node) bool {
+		if da, ok := nd.(*ast.AssignStmt); ok && da.Tok == token.DEFINE && len(da.Lhs) == 1 && len(da.Rhs) == 1 {
+			if fl, ok := da.Rhs[0].(*ast.FuncLit); ok {
+				if id, ok := da.Lhs[0].(*ast.Ident); ok {
+					m[id.Name] = fl
+				}
+			}
+		}
+		return true
+	})
+	return m
+}
+
+// consume: how the statements `rest` (those after the walker was created, or the body of a local closure the walker
+// channel was handed to) use the ids channel `ids` and the signal channel `sig`
+func consume(rest []ast.Stmt, ids, sig string, s *wsite, rangesOverWalker *[]*ast.RangeStmt, closures map[string]*ast.FuncLit) {
+	// the channel handed to a local closure as its k-th argument: that closure's body is the consumer
+	for _, r := range rest {
+		delegated := false
+		ast.Inspect(r, func(nd ast.Node) bool {
+			call, ok := nd.(*ast.CallExpr)
+			if !ok || delegated {
+				return true
+			}
+			fid, ok := call.Fun.(*ast.Ident)
+			if !ok {
+				return true
+			}
+			fl, ok := closures[fid.Name]
+			if !ok {
+				return true
+			}
+			for k, a := range call.Args {
+				if id, ok := a.(*ast.Ident); ok && id.Name == ids {
+					var prm string
+					i := 0
+					for _, f := range fl.Type.Params.List {
+						for _, n := range f.Names {
+							if i == k {
+								prm = n.Name
+							}
+							i++
+						}
+					}
+					if prm != "" && s.ranges == 0 {
+						sub := wsite{}
+						consume(fl.Body.List, prm, "_", &sub, rangesOverWalker, map[string]*ast.FuncLit{})
+						s.deferDrain = s.deferDrain || sub.deferDrain
+						s.undrained += sub.undrained
+						s.ranges += sub.ranges
+						s.otherUses += sub.otherUses - 1 // the hand-over itself is counted as a use below
+						delegated = true
+					}
+				}
+			}
+			return true
+		})
+	}
+	drainClosures = map[string]bool{}
+	for _, r := range rest {
+		if da, ok := r.(*ast.AssignStmt); ok && da.Tok == token.DEFINE && len(da.Lhs) == 1 && len(da.Rhs) == 1 {
+			if fl, ok := da.Rhs[0].(*ast.FuncLit); ok && startsWithDrain(fl, ids) {
+				if id, ok := da.Lhs[0].(*ast.Ident); ok {
+					drainClosures[id.Name] = true
+				}
+			}
+		}
+	}
+	for _, r := range rest {
+		r0 := r
+		label := ""
+		if ls, ok := r.(*ast.LabeledStmt); ok {
+			label = ls.Label.Name
+			r0 = ls.Stmt
+		}
+		switch y := r0.(type) {
+		case *ast.DeferStmt:
+			if isCallTo(y.Call, "drainWalker", ids) && s.ranges == 0 {
+				s.deferDrain = true
+			}
+			if fl, ok := y.Call.Fun.(*ast.FuncLit); ok && startsWithDrain(fl, ids) && s.ranges == 0 {
+				s.deferDrain = true // defer func() { drainWalker(ids); ... }()
+			}
+		case *ast.RangeStmt:
+			if id, ok := y.X.(*ast.Ident); ok && id.Name == ids {
+				s.ranges++
+				*rangesOverWalker = append(*rangesOverWalker, y)
+				innerLabels = collectLabels(y.Body)
+				s.undrained += undrainedExits(y, label, ids)
+			}
+		}
+	}
+	// uses of the two channels
+	for _, r := range rest {
+		ast.Inspect(r, func(nd ast.Node) bool {
+			switch y := nd.(type) {
+			case *ast.CallExpr:
+				if isCallTo(y, "drainWalker", ids) {
+					return false
+				}
+			case *ast.RangeStmt:
+				if id, ok := y.X.(*ast.Ident); ok && id.Name == ids {
+					ast.Inspect(y.Body, func(n2 ast.Node) bool {
+						if c, ok := n2.(*ast.CallExpr); ok && isCallTo(c, "drainWalker", ids) {
+							return false
+						}
+						if id, ok := n2.(*ast.Ident); ok {
+							if id.Name == ids {
+								s.otherUses++
+							}
+							if sig != "_" && id.Name == sig {
+								s.signalUses++
+							}
+						}
+						return true
+					})
+					return false
+				}
+			case *ast.Ident:
+				if y.Name == ids {
+					s.otherUses++
+				}
+				if sig != "_" && y.Name == sig {
+					s.signalUses++
+				}
+			}
+			return true
+		})
+	}
 }
 
 func walkerSites(src, out string) error {
@@ -216,64 +377,7 @@ func walkerSites(src, out string) error {
 						})
 					}
 				}
-				for _, r := range rest {
-					r0 := r
-					label := ""
-					if ls, ok := r.(*ast.LabeledStmt); ok {
-						label = ls.Label.Name
-						r0 = ls.Stmt
-					}
-					switch y := r0.(type) {
-					case *ast.DeferStmt:
-						if isCallTo(y.Call, "drainWalker", ids) && s.ranges == 0 {
-							s.deferDrain = true
-						}
-					case *ast.RangeStmt:
-						if id, ok := y.X.(*ast.Ident); ok && id.Name == ids {
-							s.ranges++
-							rangesOverWalker = append(rangesOverWalker, y)
-							innerLabels = collectLabels(y.Body)
-							s.undrained += undrainedExits(y, label, ids)
-						}
-					}
-				}
-				// uses of the two channels
-				for _, r := range rest {
-					ast.Inspect(r, func(nd ast.Node) bool {
-						switch y := nd.(type) {
-						case *ast.CallExpr:
-							if isCallTo(y, "drainWalker", ids) {
-								return false
-							}
-						case *ast.RangeStmt:
-							if id, ok := y.X.(*ast.Ident); ok && id.Name == ids {
-								ast.Inspect(y.Body, func(n2 ast.Node) bool {
-									if c, ok := n2.(*ast.CallExpr); ok && isCallTo(c, "drainWalker", ids) {
-										return false
-									}
-									if id, ok := n2.(*ast.Ident); ok {
-										if id.Name == ids {
-											s.otherUses++
-										}
-										if sig != "_" && id.Name == sig {
-											s.signalUses++
-										}
-									}
-									return true
-								})
-								return false
-							}
-						case *ast.Ident:
-							if y.Name == ids {
-								s.otherUses++
-							}
-							if sig != "_" && y.Name == sig {
-								s.signalUses++
-							}
-						}
-						return true
-					})
-				}
+				consume(rest, ids, sig, &s, &rangesOverWalker, localClosures(u.body))
 				sites = append(sites, s)
 			}
 			for _, st := range list {
